@@ -235,6 +235,16 @@ def stream_helpers(ctx, fp):
             continue
         impl = [[list(p) for p in part] for part in ys]
         b.add(case, impl, {'op': 'c18.gen_partitions', 'labels': labs})
+        if n <= 24:
+            for ms in (2, 3, 6):
+                ys, exc = collect(fp._gen_partitions, list(labs), ms)
+                case = {'fn': '_gen_partitions', 'labels': n, 'min_size': ms}
+                s.case(case)
+                s.count('_gen_partitions:min_size')
+                if exc:
+                    s.violate('unexpected exception ' + exc, case, {})
+                    continue
+                b.add(case, [[list(p) for p in part] for part in ys], {'op': 'c18.gen_partitions', 'labels': labs, 'min_size': ms})
     for na in range(2, 8):
         for nb in range(2, 8):
             labs = labels_for(rng, na + nb)
